@@ -48,8 +48,14 @@ import (
 //	chain     peers.json = this node, same address  -> reopen, wait for leadership
 //	          -> close -> peers.json = this node, NEW address -> reopen (second
 //	          recovery in a row) -> one more W -> close -> plain restart
-//	3voters   (copy of the closed directory) this node + two voters nobody runs
-//	2v+1nv    (copy) another voter first, this node, a non-voter
+//	3voters   (copy of the closed directory) this node + two voters nobody runs;
+//	          then, same copy: this node alone at the same address -> leader, W,
+//	          close, plain restart
+//	2v+1nv    (copy) another voter first, this node, a non-voter; then, same copy:
+//	          the 3-voter file; then this node alone at a NEW address -> leader,
+//	          W, close, plain restart
+//	          (under a multi-node file no leader forms, so the next recovery starts
+//	          from a log that ends before the newest snapshot)
 //
 // With the multi-node files the node cannot elect itself; data is read with a
 // NONE-level query and the configuration from raft, without waiting for a leader.
@@ -270,6 +276,10 @@ func (m *c33Model) add(v string) {
 	m.vs = append(m.vs, v)
 }
 
+func (m *c33Model) clone() *c33Model {
+	return &c33Model{ids: append([]int(nil), m.ids...), vs: append([]string(nil), m.vs...), n: m.n}
+}
+
 func (m *c33Model) tables() string {
 	var b strings.Builder
 	b.WriteString("[c]\n")
@@ -451,7 +461,7 @@ func TestVerif_C33(t *testing.T) {
 	r := kit.Start(t, "C33", "recover")
 	defer r.Finish()
 	depth := r.Pick(3, 4)
-	r.Rule(fmt.Sprintf("every history of length <=%d over {write (automatic id, counter increment, cascading delete), write 200 rows, snapshot, load a database file, join a non-voter, remove it} on a fresh real single-node Store with foreign keys on x {closed without, with snapshot-on-close}; the closed directory is then recovered (a) with a one-node peers file (same address), closed, recovered again with a one-node file carrying a new address, written to, closed and restarted, (b) from a copy with a 3-voter file, (c) from a copy with a 2-voter+1-non-voter file"+map[bool]string{true: "", false: " (quick tier: (b) or (c), alternating over the cases; the snapshot-on-close, which is the same call as operation S, only for histories shorter than the bound)"}[r.Thorough()]+". After every reopen the logical dump must equal the dump before the shutdown (plus the one later write) and the raft configuration must be exactly the peers file. distinct = (history, close mode, stage, dump, configuration)", depth))
+	r.Rule(fmt.Sprintf("every history of length <=%d over {write (automatic id, counter increment, cascading delete), write 200 rows, snapshot, load a database file, join a non-voter, remove it} on a fresh real single-node Store with foreign keys on x {closed without, with snapshot-on-close}; the closed directory is then recovered (a) with a one-node peers file (same address), closed, recovered again with a one-node file carrying a new address, written to, closed and restarted, (b) from a copy with a 3-voter file and then, the same copy, with a one-node file (same address), written to, closed and restarted, (c) from a copy with a 2-voter+1-non-voter file, then the same copy with the 3-voter file, then with a one-node file (new address), written to, closed and restarted"+map[bool]string{true: "", false: " (quick tier: (b) or (c), alternating over the cases; the snapshot-on-close, which is the same call as operation S, only for histories shorter than the bound)"}[r.Thorough()]+". After every reopen the logical dump must equal the dump before the shutdown (plus the one later write) and the raft configuration must be exactly the peers file. distinct = (history, close mode, stage, dump, configuration)", depth))
 	r.Assume("recovery is run on the directory of a node that was shut down by Store.Close (no crash images: those are C03/C04); peers files are well-formed")
 	r.Note("an Open that returns an error is retried up to 3 times, as an operator would restart the process (a recovery can collide with the snapshot store's own reaper, 'MSRW conflict owner: reap', when it leaves 4 or more snapshots); only a persistent failure is a violation")
 	r.Note("with multi-node peers files the node is never leader; data is read with NONE-level queries and the configuration from raft.GetConfiguration, no leadership wait")
@@ -742,7 +752,25 @@ func c33Run(t *testing.T, r *kit.Run, c c33Case, loads [][]byte, base string) (o
 		return nil
 	}
 
-	// (b) or (c): a multi-node peers file on a copy of the closed directory
+	noLeader := func(stage string) {
+		obs = append(obs, "no-leader")
+		r.Violation("C33:lone-voter-not-leader-after-recovery", fmt.Sprintf("%s: the only voter does not become leader within 60 s", where(stage)), replay)
+	}
+	// baseline re-reads the node before it is shut down again.
+	baseline := func(s *Store, stage string) (string, string, bool) {
+		sc, tb, err := c33Dump(s)
+		if err != nil {
+			t.Logf("c33: %s: cannot take the next baseline: %v", where(stage), err)
+			return "", "", false
+		}
+		return sc, tb, true
+	}
+	// (b) or (c): a multi-node peers file on a copy of the closed directory, and then
+	// further recoveries of that same copy. Under a multi-node file no leader forms,
+	// so nothing is appended to the log that the recovery emptied: the next recovery
+	// starts from a log that ends before the newest snapshot.
+	//   (b) 3 voters -> this node alone, same address -> leader, write, restart
+	//   (c) 2 voters + non-voter -> 3 voters -> this node alone, new address -> leader, write, restart
 	multi := []struct {
 		name  string
 		peers func(addr string) []c33Peer
@@ -753,6 +781,81 @@ func c33Run(t *testing.T, r *kit.Run, c c33Case, loads [][]byte, base string) (o
 		{"2voters+1nonvoter", func(a string) []c33Peer {
 			return []c33Peer{{"n2", "127.0.0.1:2", false}, {"n1", a, false}, {"n3", "127.0.0.1:3", true}}
 		}},
+	}
+	afterMulti := func(name, d string, port *c33Port, sc, tb string) {
+		cls := "recovery-after-multi-node-recovery:" + c.Close
+		if name == "2voters+1nonvoter" {
+			ly := port.layer()
+			peersB := multi[0].peers(ly.Addr().String())
+			writePeers(d, peersB)
+			stage := "recovery(3voters)-after-recovery(2voters+1nonvoter)"
+			ns := reopen(d, ly, stage, cls)
+			if ns == nil {
+				return
+			}
+			check(ns, stage, cls, sc, tb, peersB, "3voters-after-2voters+1nonvoter")
+			sc2, tb2, readable := baseline(ns, stage)
+			must("close "+stage, ns.Close(true))
+			if !readable {
+				return
+			}
+			sc, tb = sc2, tb2
+		}
+		p, kind := port, "same-address"
+		if name == "2voters+1nonvoter" {
+			p, kind = c33NewPort(), "new-address"
+			defer p.release()
+		}
+		ly := p.layer()
+		peers1 := []c33Peer{{"n1", ly.Addr().String(), false}}
+		writePeers(d, peers1)
+		stage := "recovery(1node-" + kind + ")-after-multi-node-recovery"
+		cfg := "1node-" + kind + "-after-multi-node-recovery"
+		ns := reopen(d, ly, stage, cls)
+		if ns == nil {
+			return
+		}
+		if !check(ns, stage, cls, sc, tb, peers1, cfg) {
+			ns.Close(true) // with a wrong configuration the node need not be able to lead
+			return
+		}
+		if err := c33WaitLeader(ns); err != nil {
+			noLeader(stage)
+			ns.Close(true)
+			return
+		}
+		must("barrier", ns.Barrier())
+		check(ns, stage+"+leader", cls, sc, tb, peers1, cfg)
+		steps++
+		if err := tryExec(ns, c33Write("after-multi-node-recovery", 3000)...); err != nil {
+			obs = append(obs, stage+":write-fails")
+			r.Violation("C33:write-fails-after-recovery:"+c.Close, fmt.Sprintf("%s: %v", where(stage), err), replay)
+			ns.Close(true)
+			return
+		}
+		if tb == tables0 && sc == schema0 {
+			m := model.clone()
+			m.add("after-multi-node-recovery")
+			m.n++
+			check(ns, "write-after-"+stage, "write-after-recovery:"+c.Close, schema0, m.tables(), peers1, cfg)
+		}
+		sc3, tb3, readable := baseline(ns, stage)
+		must("close "+stage, ns.Close(true))
+		if !readable {
+			return
+		}
+		stage = "restart-after-" + stage
+		rs := reopen(d, p.layer(), stage, "restart-after-recovery:"+c.Close)
+		if rs == nil {
+			return
+		}
+		defer rs.Close(true)
+		if err := c33WaitLeader(rs); err != nil {
+			noLeader(stage)
+			return
+		}
+		must("barrier", rs.Barrier())
+		check(rs, stage, "restart-after-recovery:"+c.Close, sc3, tb3, peers1, cfg)
 	}
 	for _, v := range multi {
 		if c.Multi != "both" && c.Multi != "" && c.Multi != v.name {
@@ -768,7 +871,11 @@ func c33Run(t *testing.T, r *kit.Run, c c33Case, loads [][]byte, base string) (o
 		stage := "recovery(" + v.name + ")"
 		if ns := reopen(d, ly, stage, "first-recovery:"+shape+":"+c.Close); ns != nil {
 			check(ns, stage, "first-recovery:"+shape+":"+c.Close, schema0, tables0, peers, v.name)
+			sc, tb, readable := baseline(ns, stage)
 			must("close "+v.name, ns.Close(true))
+			if readable {
+				afterMulti(v.name, d, port, sc, tb)
+			}
 		}
 		os.RemoveAll(d)
 	}
@@ -776,19 +883,6 @@ func c33Run(t *testing.T, r *kit.Run, c c33Case, loads [][]byte, base string) (o
 	// (a) chain on the original directory. Every stage is judged against the dump
 	// taken just before the shutdown that precedes it, so a stage that fails does
 	// not hide the later ones.
-	noLeader := func(stage string) {
-		obs = append(obs, "no-leader")
-		r.Violation("C33:lone-voter-not-leader-after-recovery", fmt.Sprintf("%s: the only voter does not become leader within 60 s", where(stage)), replay)
-	}
-	// baseline re-reads the node before it is shut down again.
-	baseline := func(s *Store, stage string) (string, string, bool) {
-		sc, tb, err := c33Dump(s)
-		if err != nil {
-			t.Logf("c33: %s: cannot take the next baseline: %v", where(stage), err)
-			return "", "", false
-		}
-		return sc, tb, true
-	}
 	ly1 := port0.layer()
 	peers1 := []c33Peer{{"n1", addr0, false}}
 	writePeers(dir, peers1)
